@@ -129,6 +129,22 @@ func ruleHistoryTriggers(c *core.Ctx) {
 			c.Fail("SQLS/history-trigger", key+":insert", f.Origin, "no single-row INSERT into "+sp.table+" in "+sp.fn)
 			continue
 		}
+		// every update writes a revision: nothing conditional stands before the INSERT
+		var ctl []string
+		for _, tk := range f.BodyToks {
+			if tk.Kind != sqlfe.Ident {
+				continue
+			}
+			t := strings.ToLower(tk.Text)
+			if t == "insert" {
+				break
+			}
+			switch t {
+			case "if", "case", "return", "loop", "while", "for", "exit", "raise", "perform", "execute":
+				ctl = append(ctl, t)
+			}
+		}
+		c.Check(len(ctl) == 0, "SQLS/history-trigger", key+":unconditional", f.Origin, "the revision is written for every row the trigger fires on", fmt.Sprintf("%s may leave or branch before it writes the revision (%v precede the INSERT): some changes of the metadata — a deleted key leaves `old.metadata @> new.metadata` true — produce no history row, and a point-in-time read after them still shows the old value", sp.fn, ctl))
 		vals := map[string]*sqlfe.Node{}
 		for i, col := range ins.Columns {
 			if i < len(ins.Values[0]) {
